@@ -281,6 +281,28 @@ class Monitor:
         return None
 
 
+def lost_stop(log):
+    """An accepted stop() that returned within its one-second wait returns only once the run thread waits
+    again (or has terminated): no model event may be executed after that return until the next command is
+    issued.  Returns (command index in the log, number of events executed after the return) or None."""
+    armed = None
+    n = 0
+    slack = 0          # a stop() that gave up after its full second may leave the event in progress to finish
+    for i, ent in enumerate(log):
+        if ent[0] == "call":                 # the next command is being issued: the window closes
+            if armed is not None and n > slack:
+                return armed, n
+            armed, n = None, 0
+        elif ent[0] == "ret":
+            armed, n = (i, 0) if (ent[1][0] == "stop" and ent[2] == "ok") else (None, 0)
+            slack = 0 if ent[3] < 0.9 else 1
+        elif ent[0] == "exec" and armed is not None:
+            n += 1
+    if armed is not None and n > slack:
+        return armed, n
+    return None
+
+
 QSTATES = {("NOT_INITIALIZED", "NOT_INITIALIZED", 0), ("INITIALIZED", "INITIALIZED", 1),
            ("STOPPED", "STARTED", 1), ("ENDED", "ENDED", 0)}
 
@@ -315,6 +337,10 @@ def oracle(case, obs):
              "resumed": False, "executed": 0, "accepted": 0}
     if "error" in obs:
         return ("driver-error", obs["error"]), facts
+    ls = lost_stop(obs["log"])
+    if ls:
+        return ("accepted-stop-lost", f"stop() was accepted and returned, yet {ls[1]} more event(s) were executed afterwards: "
+                                      "the simulator kept running"), facts
     rs, ps, clk, npend, live = "NOT_INITIALIZED", "NOT_INITIALIZED", 0, 0, 0
     end = 0
     mon = None
@@ -587,7 +613,10 @@ def shrink_seq(case, pred):
 
 
 # ============================================================================ C2: forced interleavings
-def overlap_scenarios(tier):
+SLOW_START_SIG = "overlap:stop-after-start-gave-up:accepted-stop-lost"
+
+
+def overlap_scenarios(tier, known=()):
     """Each scenario: a model, a run command, gates, the overlapping command, and the point of the run
     thread's loop (M2's wpc) the run thread is held at.  Times in quarter units (float clock)."""
     one_event = [[["sched", ["abs", 4], 5, 1]], []]                       # one event at t = 1
@@ -617,6 +646,14 @@ def overlap_scenarios(tier):
     add("step-while-running", two_events, ["start"], [dict(hold_exec, until=["main_returned"])], ["step"], "WExec")
     add("end-replication-while-running", two_events, ["start"], [dict(hold_exec, until=["main_returned"])], ["endrepl"], "WExec")
     add("cleanup-while-running", two_events, ["start"], [dict(hold_exec, until=["rs", "STOPPING"])], ["cleanup"], "WExec")
+    # --- stop() as soon as start() has returned, with a slow START subscriber (0.2 s): start() must not return
+    #     before the run thread has written STARTED, or the accepted stop is overwritten and lost
+    S.append({"kind": "overlap", "name": "stop-right-after-start", "race": "stop-right-after-start", "clock": "float",
+              "strategy": "pause", "prog": [[["sched", ["abs", 1], 5, 1]], [["sched", ["rel", 1], 5, 1]]],
+              "slow_handler_ms": 1, "setup": [["init", 0, 0, 4000000]], "runcmd": ["start"],
+              "gates": [{"at": ["ntf", "start", 1], "thread": "worker", "until": ["rs", "STOPPING"], "timeout": 0.2}],
+              "hold_gate": 0, "cmd": ["stop"], "wpc": "WSetStarted", "after": [], "m2": True, "slow": False,
+              "strict": True})
     # --- a command in the STOPPING window of a bounded run (STOP notified, STOPPED not yet written)
     add("stop-during-stopping", two_events, ["runupto", 8], [dict(hold_stop, until=["main_returned"])], ["stop"], "WSetStopped")
     add("step-during-stopping", two_events, ["runupto", 8], [dict(hold_stop, until=["main_returned"])], ["step"], "WSetStopped")
@@ -632,6 +669,15 @@ def overlap_scenarios(tier):
               "prog": [[["sched", ["abs", 4], 5, 1]], [["cmd", ["stop"]], ["cmd", ["init", 0, 0, 40]]]],
               "cmds": [init, ["start"]], "setup": [], "cmd": ["init", 0, 0, 40], "wpc": "handler, after its own stop()",
               "m2": False, "slow": True})
+    if tier != "quick" and SLOW_START_SIG in known:
+        # a START subscriber that blocks for longer than the second start() waits: start() gives up and returns
+        # in state STARTING, a stop() issued then is accepted and lost (Overlap: start_handshake_loose_refuted).
+        # Only run once the finding is registered (it is a consequence of the one-second give-up, on HEAD too).
+        S.append({"kind": "overlap", "name": "stop-after-start-gave-up", "race": "stop-after-start-gave-up", "clock": "float",
+                  "strategy": "pause", "prog": [[["sched", ["abs", 1], 5, 1]], [["sched", ["rel", 1], 5, 1]]],
+                  "slow_handler_ms": 1, "setup": [["init", 0, 0, 4000000]], "runcmd": ["start"],
+                  "gates": [{"at": ["ntf", "start", 1], "thread": "worker", "until": ["rs", "STOPPING"], "timeout": 1.3}],
+                  "hold_gate": 0, "cmd": ["stop"], "wpc": "WSetStarted", "after": [], "m2": True, "slow": True})
     if tier != "quick":
         add("start-during-stopping-after-handler-stop", [[["sched", ["abs", 4], 5, 1], ["sched", ["abs", 12], 5, 2]], [["cmd", ["stop"]]], []],
             ["start"], [dict(hold_stop, until=["rs", "STARTING"], delay=0.03)], ["start"], "WSetStopped", slow=True,
@@ -653,6 +699,11 @@ def overlap_oracle(sc, obs):
     sn = obs["snaps"][len(sc["setup"])]
     if sn[0] not in ("ok", "refused"):
         return f"overlap:{name}:command-raises-unrelated-error", f"{sc['cmd']} -> {sn[0]}"
+    ls = lost_stop(obs["log"])
+    if ls:
+        return (f"overlap:{name}:accepted-stop-lost",
+                f"stop() was accepted (run state {obs.get('at_issue', ['?'])[0]} when issued) and returned, yet {ls[1]} more "
+                f"event(s) were executed afterwards; run state afterwards {sn[1]}, clock {sn[3]}: the simulator kept running")
     mon = Monitor(0)
     mon.start = 0
     detached = False
@@ -704,9 +755,16 @@ def coq_overlap(scratch, scs, obs):
         if not sc["m2"] or "error" in o or not o.get("hold_reached") or not o.get("held_state"):
             continue
         hs = o["held_state"]
-        if hs[0] not in RS or hs[1] not in PS:
+        if not o["snaps"][len(sc["setup"])][6]:
+            continue            # never became quiescent (left to the oracle): nothing to compare with M2's quiescent states
+        ai = o.get("at_issue") or [hs[0], hs[1], True]
+        if hs[0] not in RS or hs[1] not in PS or ai[0] not in RS or ai[1] not in PS:
             continue
-        rows.append(f"overlap_allows TL {sc['wpc']} {RS[hs[0]]} {PS[hs[1]]} {OCMD[sc['cmd'][0]]} {overlap_view(sc, o)}")
+        # still held when the command was issued: the run thread's pc is known; otherwise only the shared state is
+        where, r_, p_ = (f"(Some {sc['wpc']})", hs[0], hs[1]) if ai[2] else ("None", ai[0], ai[1])
+        # "strict" scenarios hold no thread for a second or more, so no wait of the command thread may give up early
+        loose, tab = ("false", "T_any") if sc.get("strict") else ("true", "T_any_loose")
+        rows.append(f"overlap_allows_gen {loose} {tab} {where} {RS[r_]} {PS[p_]} {OCMD[sc['cmd'][0]]} {overlap_view(sc, o)}")
         idx.append(i)
     if not rows:
         return {}, None
@@ -793,7 +851,7 @@ def main(tier: str) -> int:
     cases.append(rapid_alternation_case(15 if tier == "quick" else 100))
     cases.append(rapid_bounded_case(3 if tier == "quick" else 12))
     cases += exhaustive_cases(tier)
-    scs = [s for s in overlap_scenarios(tier)]
+    scs = [s for s in overlap_scenarios(tier, {k.get("signature") for k in run._known})]
     try:
         # slow cases first so that the 1 s waits overlap
         order = sorted(range(len(cases)), key=lambda i: 0 if any(a[0] == "cmd" and a[1][0] == "stop" for b in cases[i]["prog"] for a in b) else 1)
@@ -872,7 +930,7 @@ def main(tier: str) -> int:
         if bad:
             sn = o["snaps"][-1] if o.get("snaps") else None
             run.violation(bad[0], f"{sc['name']}: {sc['cmd']} overlapping the run thread ({sc['wpc']}): {bad[1]}; outcome {sn}",
-                          {"scenario": sc, "impl_observation": {k: o.get(k) for k in ("snaps", "ntfs", "held_state", "gates", "cmd_wall", "alive", "notes", "error")},
+                          {"scenario": sc, "impl_observation": {k: o.get(k) for k in ("snaps", "ntfs", "held_state", "at_issue", "gates", "cmd_wall", "alive", "notes", "error")},
                            "how": "feed [scenario] as a JSON list to harness/c04_impl.py with PYTHONPATH=<repo>/src"})
     if scs:
         run.add_sample({"overlap_scenario": {k: scs[0].get(k) for k in ("name", "prog", "runcmd", "gates", "cmd", "wpc")},
@@ -944,7 +1002,7 @@ def main(tier: str) -> int:
             sc = scs[i]
             run.violation(f"overlap:{sc['name']}:outcome-not-allowed-by-M2",
                           f"{sc['name']}: the quiescent outcome of {sc['cmd']} overlapping the run thread at {sc['wpc']} is not reachable in Sim/Overlap.v",
-                          {"scenario": sc, "impl_observation": {k: sobs[i].get(k) for k in ("snaps", "ntfs", "held_state", "gates", "alive")},
+                          {"scenario": sc, "impl_observation": {k: sobs[i].get(k) for k in ("snaps", "ntfs", "held_state", "at_issue", "gates", "alive")},
                            "relation": "Sim.Overlap.overlap_allows"}, found_input=False)
     if tree.broken() and not bad_by_sig:
         T.report_broken_tie(run, tree)
